@@ -68,6 +68,8 @@ pub fn restrict_mut_lend(ids: [Index; NI], t: usize) {
     let (h, live) = any_handle(ids, &st, t);
     let x = nd::u8();
     let mut chosen = [false; NI];
+    // current values (a write through an earlier item is visible to later lookups)
+    let mut now = am;
     let mut q = Seq::new();
     {
         let mut r = sa.restrict_mut();
@@ -76,7 +78,7 @@ pub fn restrict_mut_lend(ids: [Index; NI], t: usize) {
         while let Some(mut e) = it.next() {
             q.yielded(e.get().0 as u64);
             let other = e.get_other(h).map(|c| c.0);
-            assert!(other == cur_val(&am, live, t), "C13: get_other differs from the storage's own lookup");
+            assert!(other == cur_val(&now, live, t), "C13: get_other differs from the storage's own lookup");
             if nd::bool() {
                 e.get_mut().0 = x;
                 // which index is this? the k-th member
@@ -85,6 +87,7 @@ pub fn restrict_mut_lend(ids: [Index; NI], t: usize) {
                     if am[i].is_some() {
                         if seen == k {
                             chosen[i] = true;
+                            now[i] = Some(x);
                         }
                         seen += 1;
                     }
